@@ -537,8 +537,9 @@ func codecCase(rep *Report, s *glue.Subject, d MD, idx int) {
 				direct := func(flags protoiface.MarshalInputFlags) func() ([]byte, int, error) {
 					return func() ([]byte, int, error) {
 						pm := T.ProtoReflect().ProtoMethods()
-						so := pm.Size(protoiface.SizeInput{Message: T.ProtoReflect(), Flags: flags &^ protoiface.MarshalDeterministic})
+						// Marshal first: a Size call would refresh whatever is cached below
 						mo, e := pm.Marshal(protoiface.MarshalInput{Message: T.ProtoReflect(), Flags: flags})
+						so := pm.Size(protoiface.SizeInput{Message: T.ProtoReflect(), Flags: flags &^ protoiface.MarshalDeterministic})
 						return mo.Buf, so.Size, e
 					}
 				}
